@@ -28,8 +28,11 @@ type Item struct {
 	Fam  string // "" = per-document data; else the registry family the value is derived from
 	Kind string // part | list | count | acc | outcome
 	Tree *canon.Node
-	Raw  []byte // non-XML (or unparsable) part payload
+	Raw  []byte // part payload
 	Val  string // list / accessor / outcome values
+
+	xml, main, parsed bool
+	nums, fn, en      []string // registry-derived values moved out of the main part's tree
 }
 
 // Snap is everything the property lets a caller observe of one document.
@@ -123,26 +126,65 @@ func (s *Snap) addPackage(prefix string, b []byte) {
 		return
 	}
 	for _, name := range pkg.SortedNames() {
-		data := pkg.Parts[name]
-		it := Item{Name: prefix + "part:" + name, Kind: "part", Fam: famOfPart(name)}
-		if pkg.IsXMLPart(name) {
-			if t, err := canon.Parse(data); err == nil {
+		s.add(Item{Name: prefix + "part:" + name, Kind: "part", Fam: famOfPart(name), Raw: pkg.Parts[name], xml: pkg.IsXMLPart(name), main: name == "word/document.xml"})
+	}
+}
+
+// tree parses an XML part on first use (most parts are byte-identical between two builds and are never parsed).
+func (it *Item) tree() *canon.Node {
+	if !it.parsed {
+		it.parsed = true
+		if it.xml {
+			if t, err := canon.Parse(it.Raw); err == nil {
 				it.Tree = t
+				if it.main {
+					it.nums, it.fn, it.en = splitRegistry(t)
+				}
 			}
 		}
-		if it.Tree == nil {
-			it.Raw = data
-		}
-		if name == "word/document.xml" && it.Tree != nil {
-			nums, fn, en := splitRegistry(it.Tree)
-			s.add(it)
-			s.add(Item{Name: prefix + "main:numId-values", Kind: "list", Fam: famList, Val: strings.Join(nums, ",")})
-			s.add(Item{Name: prefix + "main:footnote-markers", Kind: "list", Fam: famFootnote, Val: strings.Join(fn, ",")})
-			s.add(Item{Name: prefix + "main:endnote-markers", Kind: "list", Fam: famEndnote, Val: strings.Join(en, ",")})
-			continue
-		}
-		s.add(it)
 	}
+	return it.Tree
+}
+
+// chunks splits the output of xml.MarshalIndent into head + the direct children of the root (lines starting with
+// exactly two blanks and '<' open a direct child; '<' never occurs raw in character data). Used only as a fast path:
+// equal head and equal multisets of chunks mean the parts are equal up to the order of the root's children.
+func chunks(raw []byte) (head string, kids []string) {
+	var hb strings.Builder
+	cur := -1
+	for _, l := range strings.SplitAfter(string(raw), "\n") {
+		switch {
+		case len(l) > 3 && l[0] == ' ' && l[1] == ' ' && l[2] == '<' && l[3] != '/': // a direct child of the root opens
+			kids = append(kids, l)
+			cur = len(kids) - 1
+		case cur < 0 || (len(l) > 0 && l[0] == '<'): // XML declaration, root start tag, root end tag
+			hb.WriteString(l)
+			cur = -1
+		default:
+			kids[cur] += l
+		}
+	}
+	sort.Strings(kids)
+	return hb.String(), kids
+}
+
+var unorderedPart = map[string]bool{"word/styles.xml": true, partNU: true, partFN: true, partEN: true}
+
+func sameUpToRootOrder(a, b []byte) bool {
+	if len(a) != len(b) {
+		return false
+	}
+	ha, ka := chunks(a)
+	hb, kb := chunks(b)
+	if ha != hb || len(ka) != len(kb) {
+		return false
+	}
+	for i := range ka {
+		if ka[i] != kb[i] {
+			return false
+		}
+	}
+	return true
 }
 
 func tryStr(f func() string) string {
@@ -248,25 +290,40 @@ type Delta struct {
 	Detail string
 }
 
-func diffItem(a, b Item) string {
-	switch {
-	case a.Tree != nil && b.Tree != nil:
-		return canon.Diff(a.Tree, b.Tree, diffOpts)
-	case a.Tree == nil && b.Tree == nil && (a.Raw != nil || b.Raw != nil):
-		if !bytes.Equal(a.Raw, b.Raw) {
-			return fmt.Sprintf("payload differs (%d vs %d bytes)", len(a.Raw), len(b.Raw))
-		}
-		if a.Val != b.Val {
-			return fmt.Sprintf("%q vs %q", clip(a.Val, 200), clip(b.Val, 200))
-		}
-		return ""
-	case (a.Tree == nil) != (b.Tree == nil):
-		return "parses as XML on one side only"
+// diffPart compares two parts; the main part yields up to four deltas (tree + the three registry-derived lists).
+func diffPart(a, b *Item) []Delta {
+	if bytes.Equal(a.Raw, b.Raw) && a.Val == b.Val {
+		return nil
 	}
 	if a.Val != b.Val {
-		return fmt.Sprintf("%s vs %s", clip(a.Val, 300), clip(b.Val, 300))
+		return []Delta{{a.Name, a.Fam, a.Kind, fmt.Sprintf("%q vs %q", clip(a.Val, 200), clip(b.Val, 200))}}
 	}
-	return ""
+	if i := strings.Index(a.Name, "part:"); i >= 0 && unorderedPart[a.Name[i+5:]] && sameUpToRootOrder(a.Raw, b.Raw) {
+		return nil
+	}
+	ta, tb := a.tree(), b.tree()
+	switch {
+	case ta == nil && tb == nil:
+		return []Delta{{a.Name, a.Fam, a.Kind, fmt.Sprintf("payload differs (%d vs %d bytes)", len(a.Raw), len(b.Raw))}}
+	case ta == nil || tb == nil:
+		return []Delta{{a.Name, a.Fam, a.Kind, "parses as XML on one side only"}}
+	}
+	var out []Delta
+	if d := canon.Diff(ta, tb, diffOpts); d != "" {
+		out = append(out, Delta{a.Name, a.Fam, a.Kind, d})
+	}
+	if a.main {
+		pre := a.Name[:strings.Index(a.Name, "part:")]
+		list := func(name, fam string, x, y []string) {
+			if xs, ys := strings.Join(x, ","), strings.Join(y, ","); xs != ys {
+				out = append(out, Delta{pre + name, fam, "list", fmt.Sprintf("[%s] vs [%s]", clip(xs, 200), clip(ys, 200))})
+			}
+		}
+		list("main:numId-values", famList, a.nums, b.nums)
+		list("main:footnote-markers", famFootnote, a.fn, b.fn)
+		list("main:endnote-markers", famEndnote, a.en, b.en)
+	}
+	return out
 }
 
 func clip(s string, n int) string {
@@ -290,8 +347,13 @@ func diffSnaps(want, got *Snap, max int) []Delta {
 			add(Delta{a.Name, a.Fam, a.Kind, "present when built alone, absent otherwise"})
 			continue
 		}
-		if d := diffItem(a, got.Items[j]); d != "" {
-			add(Delta{a.Name, a.Fam, a.Kind, "alone vs together: " + d})
+		if a.Kind == "part" {
+			for _, d := range diffPart(&want.Items[want.index[a.Name]], &got.Items[j]) {
+				d.Detail = "alone vs together: " + d.Detail
+				add(d)
+			}
+		} else if b := got.Items[j]; a.Val != b.Val {
+			add(Delta{a.Name, a.Fam, a.Kind, fmt.Sprintf("alone vs together: %s vs %s", clip(a.Val, 300), clip(b.Val, 300))})
 		}
 	}
 	for _, b := range got.Items {
